@@ -5,6 +5,7 @@
                   st <id> <0|1> <A hex> <B hex> <AB dense hex> <AB readable hex>   (statement boundaries)
                   str <id> <value hex> <dense hex> <readable hex>            (one string literal)
                   istr <id> <value hex> <dense hex> <readable hex>           (one backtick string, one text segment)
+                  node <id> <literals> <text hex> <reference hex>           (literals: s<hex> string, i<hex> text part)
    Output lines:  bad <id> <diag>     for every case where check_case is false;   done <count> *)
 open C02_model
 
@@ -107,6 +108,12 @@ let () =
          let c = { v_value = bytes_of_hex value; v_dense = bytes_of_hex dense; v_readable = bytes_of_hex readable } in
          incr count;
          if not (vcheck_case c) then Printf.printf "bad %s %s\n" id (string_of_bytes (vdiag_bytes c))
+       | [ "node"; id; lits; text; reference ] ->
+         let lit s = ((s.[0] = 'i'), bytes_of_hex (if String.length s = 1 then "-" else String.sub s 1 (String.length s - 1))) in
+         let l = if lits = "-" then [] else List.map lit (String.split_on_char ',' lits) in
+         let c = { n_lits = l; n_text = bytes_of_hex text; n_ref = bytes_of_hex reference } in
+         incr count;
+         if not (ncheck_case c) then Printf.printf "bad %s %s\n" id (string_of_bytes (ndiag_bytes c))
        | [ "istr"; id; value; dense; readable ] ->
          let c = { v_value = bytes_of_hex value; v_dense = bytes_of_hex dense; v_readable = bytes_of_hex readable } in
          incr count;
